@@ -1,0 +1,395 @@
+//go:build verif
+
+package dkg
+
+// Verification hooks (build tag `verif` only; add-only, no behaviour change).
+//
+// verifTrace is called (deferred) at the end of NewDistKeyHandler, Deals,
+// ProcessDeals, ProcessResponses and ProcessJustifications. Events go to
+// VerifTrace if set; if the environment variable VERIF_TRACE_FILE names a
+// file, an ndjson recorder is installed at start-up so that the package's
+// own tests can be validated against spec/DKGPedersenTrace.tla.
+//
+// An event carries the abstract view of the call's input (who sent a bundle,
+// is the session id right, is the threshold right, does it name an unknown
+// index, does the share meant for this node verify, ...) and the projection
+// of the generator's state after the call (phase, status matrix, both
+// eviction lists, which shares / public polynomials are stored).
+
+import (
+	"bytes"
+	"crypto/sha256"
+	"encoding/json"
+	"os"
+	"slices"
+	"sort"
+	"sync"
+
+	"go.dedis.ch/kyber/v4/encrypt/ecies"
+	"go.dedis.ch/kyber/v4/share"
+)
+
+// VerifTrace, when non-nil, receives every event: ev, then key/value pairs
+// ("d", *DistKeyGenerator) and ("in", the bundles handed to the call).
+var VerifTrace func(ev string, kv ...any)
+
+func verifTrace(ev string, kv ...any) {
+	if VerifTrace != nil {
+		VerifTrace(ev, kv...)
+	}
+}
+
+// VerifParty numbers the distinct public keys of a configuration: old nodes
+// first (list order), then the nodes that are only in the new group.
+type VerifParty struct {
+	P  int `json:"p"`
+	OI int `json:"oi"` // index in the old group, -1 if none
+	NI int `json:"ni"` // index in the new group, -1 if none
+}
+
+func (d *DistKeyGenerator) verifParties() []VerifParty {
+	var ps []VerifParty
+	for _, o := range d.c.OldNodes {
+		p := VerifParty{P: len(ps), OI: int(o.Index), NI: -1}
+		for _, n := range d.c.NewNodes {
+			if n.Public.Equal(o.Public) {
+				p.NI = int(n.Index)
+			}
+		}
+		ps = append(ps, p)
+	}
+	for _, n := range d.c.NewNodes {
+		found := false
+		for _, o := range d.c.OldNodes {
+			if n.Public.Equal(o.Public) {
+				found = true
+			}
+		}
+		if !found {
+			ps = append(ps, VerifParty{P: len(ps), OI: -1, NI: int(n.Index)})
+		}
+	}
+	return ps
+}
+
+func verifOld(ps []VerifParty, idx uint32) int {
+	for _, p := range ps {
+		if p.OI == int(idx) {
+			return p.P
+		}
+	}
+	return -1
+}
+
+func verifNew(ps []VerifParty, idx uint32) int {
+	for _, p := range ps {
+		if p.NI == int(idx) {
+			return p.P
+		}
+	}
+	return -1
+}
+
+type verifKV struct {
+	K int    `json:"k"`
+	V string `json:"v"`
+}
+
+// VerifState is the projection of a generator.
+type VerifState struct {
+	Ph string `json:"ph"`
+	// status matrix as a list of rows [dealer party, [holder party, "S"/"C"]...]
+	Rows []verifRow `json:"st"`
+	Ev   []int      `json:"ev"`
+	Eh   []int      `json:"eh"`
+	Vs   []int      `json:"vs"`
+	Ap   []int      `json:"ap"`
+}
+
+type verifRow struct {
+	D   int       `json:"d"`
+	Row []verifKV `json:"row"`
+}
+
+func (d *DistKeyGenerator) verifState(ps []VerifParty) VerifState {
+	s := VerifState{Ph: map[Phase]string{InitPhase: "init", DealPhase: "deal", ResponsePhase: "resp",
+		JustifPhase: "just", FinishPhase: "fin"}[d.state]}
+	for dealer, row := range *d.statuses {
+		r := verifRow{D: verifOld(ps, dealer)}
+		for holder, st := range row {
+			v := "S"
+			if st == Complaint {
+				v = "C"
+			}
+			r.Row = append(r.Row, verifKV{K: verifNew(ps, holder), V: v})
+		}
+		sort.Slice(r.Row, func(i, j int) bool { return r.Row[i].K < r.Row[j].K })
+		s.Rows = append(s.Rows, r)
+	}
+	sort.Slice(s.Rows, func(i, j int) bool { return s.Rows[i].D < s.Rows[j].D })
+	set := func(xs []int) []int {
+		sort.Ints(xs)
+		xs = slices.Compact(xs)
+		if xs == nil {
+			xs = []int{}
+		}
+		return xs
+	}
+	var ev, eh, vs, ap []int
+	for _, i := range d.evicted {
+		ev = append(ev, verifOld(ps, i))
+	}
+	for _, i := range d.evictedHolders {
+		eh = append(eh, verifNew(ps, i))
+	}
+	for i := range d.validShares {
+		vs = append(vs, verifOld(ps, i))
+	}
+	for i := range d.allPublics {
+		ap = append(ap, verifOld(ps, i))
+	}
+	s.Ev, s.Eh, s.Vs, s.Ap = set(ev), set(eh), set(vs), set(ap)
+	return s
+}
+
+// abstract view of the bundles handed to a phase call
+type verifDeal struct {
+	From int    `json:"from"` // dealer party, -1 unknown index
+	Nil  bool   `json:"nil"`
+	Sid  bool   `json:"sid"`
+	Thr  bool   `json:"thr"`
+	Unk  bool   `json:"unk"`
+	Sec  bool   `json:"sec"`
+	Mine string `json:"mine"` // "G" share for this node verifies, "B" it does not, "M" there is none
+	Pub  string `json:"pub"`  // fingerprint of the public polynomial (to tell duplicates from conflicts)
+}
+
+func (d *DistKeyGenerator) verifDeals(ps []VerifParty, bundles []*DealBundle) []verifDeal {
+	out := []verifDeal{}
+	for _, b := range bundles {
+		if b == nil {
+			out = append(out, verifDeal{Nil: true, From: -1})
+			continue
+		}
+		v := verifDeal{From: verifOld(ps, b.DealerIndex), Sid: bytes.Equal(b.SessionID, d.c.Nonce),
+			Thr: b.Public != nil && uint32(len(b.Public)) == d.c.Threshold, Sec: true, Mine: "M"}
+		h := sha256.New()
+		for _, p := range b.Public {
+			if p != nil {
+				_, _ = p.MarshalTo(h)
+			}
+		}
+		v.Pub = string(jsonHex(h.Sum(nil)[:6]))
+		for _, deal := range b.Deals {
+			if !isIndexIncluded(d.c.NewNodes, deal.ShareIndex) {
+				v.Unk = true
+			}
+		}
+		if v.Thr && d.canReceive {
+			pub := share.NewPubPoly(d.c.Suite, d.c.Suite.Point().Base(), b.Public)
+			for _, deal := range b.Deals {
+				if !isIndexIncluded(d.c.NewNodes, deal.ShareIndex) {
+					break // the code stops at the first unknown index
+				}
+				if deal.ShareIndex != d.nidx {
+					continue
+				}
+				v.Mine = "B"
+				buf, err := ecies.Decrypt(d.c.Suite, d.long, deal.EncryptedShare, sha256.New)
+				if err != nil {
+					continue
+				}
+				sh := d.c.Suite.Scalar()
+				if sh.UnmarshalBinary(buf) != nil {
+					continue
+				}
+				if pub.Eval(d.nidx).V.Equal(d.c.Suite.Point().Mul(sh, nil)) {
+					v.Mine = "G"
+				}
+			}
+			if d.isResharing && d.olddpub != nil && v.From >= 0 {
+				v.Sec = d.olddpub.Eval(b.DealerIndex).V.Equal(pub.Commit())
+			}
+		}
+		out = append(out, v)
+	}
+	return out
+}
+
+func jsonHex(b []byte) []byte {
+	const hexd = "0123456789abcdef"
+	o := make([]byte, 0, 2*len(b))
+	for _, c := range b {
+		o = append(o, hexd[c>>4], hexd[c&15])
+	}
+	return o
+}
+
+type verifResp struct {
+	From int       `json:"from"` // holder party, -1 unknown
+	Nil  bool      `json:"nil"`
+	Sid  bool      `json:"sid"`
+	Unk  bool      `json:"unk"`
+	Rs   []verifKV `json:"rs"`
+}
+
+func (d *DistKeyGenerator) verifResps(ps []VerifParty, bundles []*ResponseBundle) []verifResp {
+	out := []verifResp{}
+	for _, b := range bundles {
+		if b == nil {
+			out = append(out, verifResp{Nil: true, From: -1})
+			continue
+		}
+		v := verifResp{From: verifNew(ps, b.ShareIndex), Sid: bytes.Equal(b.SessionID, d.c.Nonce), Rs: []verifKV{}}
+		for _, r := range b.Responses {
+			if !isIndexIncluded(d.c.OldNodes, r.DealerIndex) {
+				v.Unk = true
+				continue
+			}
+			st := "S"
+			if r.Status == Complaint {
+				st = "C"
+			}
+			v.Rs = append(v.Rs, verifKV{K: verifOld(ps, r.DealerIndex), V: st})
+		}
+		out = append(out, v)
+	}
+	return out
+}
+
+type verifJust struct {
+	From   int       `json:"from"` // dealer party, -1 unknown
+	Nil    bool      `json:"nil"`
+	Sid    bool      `json:"sid"`
+	Unk    bool      `json:"unk"`
+	Sec    bool      `json:"sec"`
+	HasPub bool      `json:"haspub"`
+	Js     []verifKV `json:"js"` // holder party -> "good" (matches the stored public polynomial) / "bad"
+}
+
+func (d *DistKeyGenerator) verifJusts(ps []VerifParty, bundles []*JustificationBundle) []verifJust {
+	out := []verifJust{}
+	for _, b := range bundles {
+		if b == nil {
+			out = append(out, verifJust{Nil: true, From: -1})
+			continue
+		}
+		v := verifJust{From: verifOld(ps, b.DealerIndex), Sid: bytes.Equal(b.SessionID, d.c.Nonce), Sec: true, Js: []verifKV{}}
+		pub, ok := d.allPublics[b.DealerIndex]
+		v.HasPub = ok
+		if ok && d.isResharing && d.olddpub != nil && v.From >= 0 {
+			v.Sec = d.olddpub.Eval(b.DealerIndex).V.Equal(pub.Commit())
+		}
+		for _, j := range b.Justifications {
+			if !isIndexIncluded(d.c.NewNodes, j.ShareIndex) {
+				v.Unk = true
+				continue
+			}
+			k := "bad"
+			if ok && j.Share != nil && pub.Eval(j.ShareIndex).V.Equal(d.c.Suite.Point().Mul(j.Share, nil)) {
+				k = "good"
+			}
+			v.Js = append(v.Js, verifKV{K: verifNew(ps, j.ShareIndex), V: k})
+		}
+		out = append(out, v)
+	}
+	return out
+}
+
+// VerifEvent is one recorded call.
+type VerifEvent struct {
+	Obj   string         `json:"obj"`
+	Seq   int            `json:"seq"`
+	Ev    string         `json:"ev"`
+	Args  map[string]any `json:"args"`
+	State VerifState     `json:"state"`
+}
+
+// VerifProject builds the event of a call (exported so that a harness recorder can use it).
+func VerifProject(ev string, kv ...any) (*DistKeyGenerator, *VerifEvent) {
+	var d *DistKeyGenerator
+	var in any
+	for i := 0; i+1 < len(kv); i += 2 {
+		switch kv[i] {
+		case "d":
+			d, _ = kv[i+1].(*DistKeyGenerator)
+		case "in":
+			in = kv[i+1]
+		}
+	}
+	if d == nil {
+		return nil, nil
+	}
+	ps := d.verifParties()
+	e := &VerifEvent{Ev: ev, Args: map[string]any{}, State: d.verifState(ps)}
+	switch ev {
+	case "New":
+		self := verifNew(ps, d.nidx)
+		if d.oldPresent {
+			self = verifOld(ps, d.oidx)
+		}
+		ot := int(d.c.OldThreshold)
+		if !d.isResharing {
+			ot = int(d.c.Threshold)
+		}
+		e.Args = map[string]any{"parties": ps, "self": self, "nt": int(d.c.Threshold), "ot": ot,
+			"fast": d.c.FastSync, "resh": d.isResharing}
+	case "ProcessDeals":
+		b, _ := in.([]*DealBundle)
+		e.Args["bundles"] = d.verifDeals(ps, b)
+	case "ProcessResponses":
+		b, _ := in.([]*ResponseBundle)
+		e.Args["bundles"] = d.verifResps(ps, b)
+	case "ProcessJustifications":
+		b, _ := in.([]*JustificationBundle)
+		e.Args["bundles"] = d.verifJusts(ps, b)
+	}
+	return d, e
+}
+
+type verifRecorder struct {
+	mu  sync.Mutex
+	f   *os.File
+	ids map[*DistKeyGenerator]int
+	seq map[int]int
+}
+
+func (t *verifRecorder) trace(ev string, kv ...any) {
+	d, e := VerifProject(ev, kv...)
+	if e == nil {
+		return
+	}
+	t.mu.Lock()
+	defer t.mu.Unlock()
+	id, ok := t.ids[d]
+	if !ok {
+		id = len(t.ids) + 1
+		t.ids[d] = id
+	}
+	t.seq[id]++
+	e.Obj = "dkg#" + string(jsonInt(id))
+	e.Seq = t.seq[id]
+	b, err := json.Marshal(e)
+	if err != nil {
+		return
+	}
+	_, _ = t.f.Write(append(b, '\n'))
+}
+
+func jsonInt(i int) []byte {
+	b, _ := json.Marshal(i)
+	return b
+}
+
+func init() {
+	path := os.Getenv("VERIF_TRACE_FILE")
+	if path == "" {
+		return
+	}
+	f, err := os.OpenFile(path, os.O_CREATE|os.O_APPEND|os.O_WRONLY, 0o644)
+	if err != nil {
+		return
+	}
+	r := &verifRecorder{f: f, ids: map[*DistKeyGenerator]int{}, seq: map[int]int{}}
+	VerifTrace = r.trace
+}
